@@ -2,6 +2,7 @@ from dataclasses import dataclass
 
 from mypy.nodes import CallExpr, MemberExpr, NameExpr, StrExpr
 
+from refurb.checks.common import stringify
 from refurb.error import Error
 
 from .util import is_pathlike
@@ -46,7 +47,7 @@ def check(node: CallExpr, errors: list[Error]) -> None:
             callee=MemberExpr(
                 expr=CallExpr(
                     callee=NameExpr(fullname="builtins.open"),
-                    args=[arg, StrExpr(value=mode)],
+                    args=[arg, StrExpr(value=mode) as mode_node],
                     arg_names=[_, None | "mode"],
                 ),
                 name="close",
@@ -56,5 +57,7 @@ def check(node: CallExpr, errors: list[Error]) -> None:
             new = "x.touch()" if is_pathlike(arg) else "Path(x).touch()"
 
             errors.append(
-                ErrorInfo.from_node(node, f'Replace `open(x, "{mode}").close()` with `{new}`')
+                ErrorInfo.from_node(
+                    node, f"Replace `open(x, {stringify(mode_node)}).close()` with `{new}`"
+                )
             )
